@@ -24,6 +24,13 @@ theorem facts_ok : facts.compNode = 2 ∧ facts.compTok = 1 := by decide
 theorem protocol_facts : SourceFacts.cloneAmount = 1 ∧ SourceFacts.dropAmount = 1 ∧ SourceFacts.teardownWhenPrev = 1 := by
   decide
 
+/-- "stays valid as long as any handle exists" is meant in the language's memory model: the teardown must
+    be ordered after every other thread's uses, which needs the decrement to release and to acquire
+    (`C07.teardown_race_free` is the theorem; here only the fact it rests on) -/
+theorem ordering_facts :
+    (SourceFacts.dropOrdering == 3 || SourceFacts.dropOrdering == 4) = true ∧ SourceFacts.allRefCountOpsAreRmw = true := by
+  decide
+
 /-- every reachable state of the implementation's protocol satisfies the invariant -/
 theorem inv_always (nslots nthreads owned : Nat) (hpos : 1 ≤ nthreads * owned) (s : Sys)
     (hr : Reachable facts (Sys.init nslots nthreads owned) s) : Inv s :=
